@@ -321,16 +321,15 @@ type c04Setup struct {
 	prefix               string
 	streams, sets, tsets bool
 	ifaceOnly, genOnly   bool
-	triples              bool // kind triples also in the quick tier
 }
 
 var c04Setups = []c04Setup{
-	{name: "spare", prefix: "a0=arr 3 1,2,1,9,9 ; s0=from a0 ; a1=arr 2 2,3 ; s1=fromv a1", streams: true, triples: true},
+	{name: "spare", prefix: "a0=arr 3 1,2,1,9,9 ; s0=from a0 ; a1=arr 2 2,3 ; s1=fromv a1", streams: true},
 	{name: "overlap", prefix: "a0=arr 4 3,1,2,1 ; s0=from a0 ; a1=sub a0 1 3 ; s1=from a1", streams: true},
 	{name: "nil-empty", prefix: "a0=arr 3 -1,2,-1,5 ; s0=from a0 ; a1=arr 0 - ; s1=from a1", streams: true},
-	{name: "sets", prefix: "a0=arr 2 3,4,4 ; m0=setfrom 1,2 ; set m0 1 5 ; m1=setfrommap 2:7,3:8", sets: true, triples: true},
+	{name: "sets", prefix: "a0=arr 2 3,4,4 ; m0=setfrom 1,2 ; set m0 1 5 ; m1=setfrommap 2:7,3:8", sets: true},
 	{name: "sets-empty", prefix: "a0=arr 0 - ; m0=setfrom - ; m1=setfrom 2,2,3", sets: true},
-	{name: "ssets", prefix: "a0=arr 3 1,2,1,9 ; s0=from a0 ; a1=arr 2 2,3 ; s1=from a1 ; t0=tfrommap 1:s0,2:s1 ; t1=tfrommap 1:s1,3:s0", tsets: true, triples: true},
+	{name: "ssets", prefix: "a0=arr 3 1,2,1,9 ; s0=from a0 ; a1=arr 2 2,3 ; s1=from a1 ; t0=tfrommap 1:s0,2:s1 ; t1=tfrommap 1:s1,3:s0", tsets: true},
 	{name: "ssets-nil", prefix: "a0=arr 2 4,2 ; s0=from a0 ; t0=tfrom 1,2 ; tset t0 1 s0 ; tset t0 3 nil ; t1=tnew", tsets: true},
 	{name: "ssets-gnil", prefix: "a0=arr 2 4,2 ; s0=from a0 ; a1=arr 0 - ; s1=from a1 ; t0=tfrommap 1:s0,2:nil,3:s1 ; t1=tfrommap 1:s1,2:s0,3:nil", tsets: true, genOnly: true},
 }
@@ -390,9 +389,6 @@ func c04Gen(tier string, rng *rand.Rand, emit func(string)) map[string]interface
 					return c04Cand{}, false
 				}
 				return same[rng.Intn(len(same))], true
-			}
-			if tier != "thorough" && !su.triples {
-				continue
 			}
 			m0 := byKind(rbase)
 			for _, k1 := range kindList {
